@@ -10,7 +10,8 @@ import collections
 from lib import exprs as E, exprgen as G, exprcheck as X
 
 THEOREMS = [
-    "Claripy.Props.C01.C01_built_sound", "Claripy.Props.C01.C01_direct_sound", "Claripy.Props.C01.C01_full_of_built", "Claripy.AST.wt_of_ne_err", "Claripy.AST.extractRules_sound", "Claripy.AST.extrV_foldl",
+    "Claripy.Props.C01.C01_built_sound", "Claripy.Props.C01.C01_direct_sound", "Claripy.Props.C01.C01_full_of_built", "Claripy.AST.wt_of_ne_err", "Claripy.AST.extractRules_sound", "Claripy.AST.extrV_foldl", "Claripy.Props.C01.C01_not_table_proven", "Claripy.Props.C01.notPairs_sound",
+    "Claripy.Props.C01.C01_extract_distributable_proven", "Claripy.Props.C01.C01_flattenable_modelled", "Claripy.Props.C01.C01_simplifier_ops_modelled",
     "Claripy.Props.C01.C01_rules_sound", "Claripy.Props.C01.C01_rewrite_step_sound", "Claripy.Props.C01.C01_congruence",
     "Claripy.Props.C01.C01_eval_canonical", "Claripy.Props.C01.C01_fold_sound", "Claripy.Props.C01.C01_fold_sound_all", "Claripy.BV.reverse_spec", "Claripy.BV.reverseLoop_eq", "Claripy.Props.C01.C01_ac_rewrite_sound",
     "Claripy.Props.C01.C01_ac_rewrite_sound_width", "Claripy.Props.C01.C01_bool_ac_rewrite_sound", "Claripy.Props.C01.C01_bits_rewrite_sound", "Claripy.Props.C01.C01_cmp_rewrite_sound", "Claripy.Props.C01.C01_and_eq_ne_sound", "Claripy.Props.C01.C01_minmax_rewrite_sound", "Claripy.Props.C01.C01_max_idiom", "Claripy.Props.C01.C01_min_idiom",
@@ -61,13 +62,25 @@ def shrink(tree, fails):
 def run(ctx):
     ctx.cov["trusted_base"] += [
         "Lean core BitVec operations are the SMT-LIB bit-vector operations (smtUDiv/smtSDiv for division by zero); claripy SMod = bvsrem as backend_z3 translates it",
-        "modelled, not verified: lean/Claripy/BV/Concrete.lean (bv.py), lean/Claripy/AST/{Expr,Fold,Rules}.lean (56 rewrite schemas of simplifications.py and ast/bool.py:If); "
-        "simplifiers not in the table (flattening, Concat/Extract/Reverse, mask/zero-extension comparisons, xor min/max idiom) are covered by the semantic oracle only",
+        "modelled, not verified: lean/Claripy/BV/Concrete.lean (bv.py), lean/Claripy/AST/{Expr,Fold,Rules}.lean (75 rewrite schemas of simplifications.py and ast/bool.py:If, six certificate checks); "
+        "translator harness/translate_simptables.py (Not chain, extract_distributable, flattenable, keys of _all_simplifiers); the handful of rewrites no schema or certificate explains are covered by the semantic oracle only",
         "Z3's own meaning of each operator is not re-derived (C09 covers the claripy<->Z3 operator tables)",
     ]
     ctx.cov["rule"] = ("cases = written operation trees: (1) rule-directed templates for every rewrite of simplifications.py/If with near-misses, "
                        "(2) type-directed random trees depth<=4, (3) thorough: all depth-1 and constant-chained depth-2 trees at widths 1-2(3); "
                        "non-trivial = the built AST differs structurally from the written tree (a rewrite or fold happened); distinct = distinct written tree")
+    # the tables simplifications.py keeps as data / as a flat if-chain are regenerated from the source; the theorems
+    # C01_*_proven / *_modelled say that every entry is covered by a proven rewrite
+    import os
+    import translate_simptables as tst
+    from lib.common import LEAN, write_if_changed
+    try:
+        tr = tst.translate()
+        write_if_changed(os.path.join(LEAN, "Claripy", "Gen", "SimpTables.lean"), tst.render(tr))
+        ctx.cov["translated"] = {"not_chain_entries": len(tr["not"]), "extract_distributable": tr["extract_distributable"],
+                                 "flattenable": tr["flattenable"], "simplifier_ops": len(tr["simplifier_ops"])}
+    except tst.TranslateError as e:
+        ctx.tie_broken("translate:simplifications-tables", str(e)[:300])
     ok = ctx.prove("ClaripyProofs.Props.C01", THEOREMS)
     rng = ctx.rng
     n_rule = ctx.pick(6000, 120000)
